@@ -669,8 +669,17 @@ def r6_order(R) -> None:
     se = SymExec(fi.node, inline_helpers=False)
     call = _template_call(fi, ['endogenous', 'exogenous', 'parameters', 'errors', 'lags', 'leads', 'equations'])
     eqv = canon(se.value(_stmt_of(fi.node, se, call), [k.value for k in call.keywords if k.arg == 'equations'][0]))
-    comps = [x for x in ast.walk(eqv) if isinstance(x, (ast.ListComp, ast.GeneratorExp)) and any(is_call(y, 'converter') or (isinstance(y, ast.Call) and isinstance(y.func, ast.IfExp))
-                                                                                                     for y in [x.elt])]
+
+    def conv_comps(v):
+        return [x for x in ast.walk(v) if isinstance(x, (ast.ListComp, ast.GeneratorExp))
+                and any(isinstance(y, ast.Call) and (isinstance(y.func, ast.IfExp) or (isinstance(y.func, ast.Name) and 'convert' in y.func.id)) for y in ast.walk(x.elt))]
+    comps = conv_comps(eqv)
+    if not comps:
+        # the conversion may sit in a helper (module-level or nested) and the indentation in a second comprehension over
+        # its result: read the helpers, fuse the comprehensions
+        se2 = Fn(R, fi.qualname).symexec(deep=True)
+        eqv = canon(se2.value(_stmt_of(fi.node, se2, call), [k.value for k in call.keywords if k.arg == 'equations'][0]), fuse=True)
+        comps = [x for x in conv_comps(eqv) if not any(y is not x and isinstance(y, (ast.ListComp, ast.GeneratorExp)) and any(z is x for z in ast.walk(y)) for y in conv_comps(eqv))]
     sym_param = (fi.params() + ['symbols'])[0]
     if not comps:
         raise Unknown(f'{fi.qualname}: the converted expressions are not a comprehension in `{text(eqv)[:80]}`')
